@@ -132,6 +132,11 @@ class GateReplacer(Visitor):
         new_parameters = {
             name: self.visit(param) for name, param in gate.parameters.items()
         }
+        if gate.name not in self.macros:
+            # The arguments are known now: check them against the gate's signature
+            for param in gate.gate_def.parameters:
+                if param.name in new_parameters:
+                    param.validate(new_parameters[param.name])
         new_gate = GateStatement(gate.gate_def, new_parameters)
         return replace_gate(new_gate, self.macros)
 
@@ -149,6 +154,8 @@ class GateReplacer(Visitor):
         """This happens when the user indexes a qubit register."""
         alias_from = self.visit(qubit.alias_from)
         alias_index = filter_float(self.visit(qubit.alias_index))
+        if isinstance(alias_index, float):
+            raise JaqalError(f"Qubit index {alias_index} is not an integer")
         return alias_from[alias_index]
 
 
